@@ -444,7 +444,12 @@ class Replay:
             outcome, value = b.call(obj, label, self.feat)
             if op == "reject":
                 self.stats["rejects"] += 1
-                self.check_reject(obj, label, outcome, value, before_rng, skey)
+                if "reject" in self.checks:
+                    self.check_reject(obj, label, outcome, value, before_rng, skey)
+                if "state" in self.checks and outcome != "skip":
+                    # the specification state is unchanged by a rejected call: arms, keys, ... must still project to it
+                    for clause, detail in self.safe_compare(obj, edge["s"]):
+                        self.report(clause, detail + " (after the rejected call %s)" % label.get("kind"), skey, label)
                 continue
             if outcome != "ok":
                 self.report("call.exception", "%s raised %s: %s" % (op, outcome, value), skey, label)
@@ -472,6 +477,18 @@ class Replay:
             if not getattr(b, "confluence_ok", True):
                 pure = False
             if known is None:
+                want_query = edge["_queried"] if "_queried" in edge else (self.stats["states"] % 2 == 1)
+                edge["_queried"] = bool(want_query and edge["t"].get("fitted"))      # kept in replay files
+                if edge["_queried"]:
+                    # queries are self-loops of the specification, so an object that has answered queries represents the
+                    # state just as well: every second representative is a queried one, so that continuations (arm
+                    # changes, training, warm start) are also exercised on bandits that predicted before
+                    try:
+                        obj.predict(b.contexts(1))
+                        obj.predict_expectations(b.contexts(3))
+                        self.stats["queried_representatives"] = self.stats.get("queried_representatives", 0) + 1
+                    except Exception:  # noqa
+                        pass
                 self.objs[tkey] = obj
                 self.pure[tkey] = pure
                 self.fits[tkey] = nfits
